@@ -166,10 +166,13 @@ def _b64u(b):
     return base64.urlsafe_b64encode(b).rstrip(b"=").decode()
 
 
-def jwt_hs256(claims, secret):
-    h = _b64u(json.dumps({"alg": "HS256", "typ": "JWT"}, separators=(",", ":")).encode())
+def jwt_hs256(claims, secret, alg="HS256"):
+    """alg HS256 / HS384: an HMAC keyed with the secret (the server accepts the HMAC family); none: no signature at all"""
+    h = _b64u(json.dumps({"alg": alg, "typ": "JWT"}, separators=(",", ":")).encode())
     p = _b64u(json.dumps(claims, separators=(",", ":")).encode())
-    sig = hmac.new(secret.encode(), f"{h}.{p}".encode(), hashlib.sha256).digest()
+    if alg == "none":
+        return f"{h}.{p}."
+    sig = hmac.new(secret.encode(), f"{h}.{p}".encode(), hashlib.sha384 if alg == "HS384" else hashlib.sha256).digest()
     return f"{h}.{p}.{_b64u(sig)}"
 
 
@@ -371,7 +374,7 @@ class AuthServer(vserver.Server):
         i = max(txt.find("panic:"), txt.find("fatal error:"), txt.find("SIGSEGV"))
         return f"(exit status {self.proc.poll() if self.proc else None}) " + (txt[max(0, i - 200): i + 2500] if i >= 0 else txt[-2500:])
 
-    def raw(self, method, path, params=None, body=None, headers=None, timeout=30, port=None):
+    def raw(self, method, path, params=None, body=None, headers=None, timeout=120, port=None):      # (a shared machine: load averages of several hundred)
         """-> (status, body bytes, headers); port = the role whose HTTP port is asked (default: sql)"""
         url = self.role_url(port) + path
         if params:
@@ -1205,10 +1208,22 @@ def apply_creds(w, probe, cred, tr):
         if tr == "mixed":
             headers.update(basic_header(w.srv.admin))
     elif tr == "bearer":
+        # "cur": signed with the shared secret, valid now; "old": rightly signed but out of its validity (expired a while / long
+        # ago, not valid yet, without an expiry); "bad": not rightly signed (another secret, another MAC, no signature at all)
         now = int(time.time())
-        secret = SECRET if pwk in ("cur", "old") else "another-secret"
-        exp = now + 600 if pwk != "old" else now - 600
-        headers["Authorization"] = "Bearer " + jwt_hs256({"username": name, "exp": exp}, secret)
+        v = w.mk()
+        if pwk == "cur":
+            tok = jwt_hs256({"username": name, "exp": now + 600}, SECRET, alg="HS384" if v % 4 == 3 else "HS256")      # (any HMAC keyed with the secret)
+        elif pwk == "old":
+            claims = [{"username": name, "exp": now - 600}, {"username": name, "exp": now - 400 * 86400}, {"username": name, "exp": now + 600, "nbf": now + 300},
+                      {"username": name}, {"username": name, "exp": now - 5}][v % 5]
+            tok = jwt_hs256(claims, SECRET)
+        else:
+            tok = [jwt_hs256({"username": name, "exp": now + 600}, "another-secret"),
+                   jwt_hs256({"username": name, "exp": now + 600}, "another-secret", alg="HS384"),
+                   jwt_hs256({"username": name, "exp": now + 600}, SECRET, alg="none"),
+                   jwt_hs256({"username": name, "exp": now + 600}, SECRET)[:-6] + "AAAAAA"][v % 4]
+        headers["Authorization"] = "Bearer " + tok
     return params, headers
 
 
@@ -1534,7 +1549,7 @@ def mode_a(tier):
     taken = set()
     heavy = {"Auth.exh.quick.cfg", "Auth.exh.transports.cfg", "Auth.exh.thorough.cfg", "Auth.exh.deep.cfg"}
     with cf.ThreadPoolExecutor(4 if tier == "quick" else 3) as ex:       # (the configurations side by side)
-        rs = list(ex.map(lambda cfg: tlc(cfg, workers=(5 if tier == "quick" else 6) if cfg in heavy else 2, timeout=1500, coverage=(tier != "quick")), cfgs))
+        rs = list(ex.map(lambda cfg: tlc(cfg, workers=(5 if tier == "quick" else 6) if cfg in heavy else 2, timeout=1500 if tier == "quick" else 3300, coverage=(tier != "quick")), cfgs))
     for cfg, r in zip(cfgs, rs):
         for a, n in re.findall(r"<(\w+) line \d+, col \d+ to line \d+, col \d+ of module Auth>: (\d+):\d+", r["out"]):
             if int(n) > 0:
@@ -1875,6 +1890,35 @@ def export_cache(seed, n):
     return pick, st
 
 
+def export_revoke(seed, n):
+    """the GRANT / REVOKE table of Auth.bfs.revoke.cfg (privilege held x privilege revoked, REVOKE of what is not held)"""
+    r = tlc("Auth.bfs.revoke.cfg", workers=2, timeout=600)
+    hs = sorted((h for h in r["traces"] if len(h) == 4), key=lambda h: json.dumps([[e["a"], e["args"]] for e in h], sort_keys=True))
+    rnd = random.Random(seed * 19 + 11)
+    pick = hs if n is None or n >= len(hs) else rnd.sample(hs, n)
+    return pick, {"cfg": "Auth.bfs.revoke.cfg", "behaviours": len(hs), "played": len(pick), "wall_s": round(r["wall_s"], 1)}
+
+
+def play_revoke(w, hists, seed):
+    """each behaviour on a user of its own (the databases are the fixture's); after every administrator action the user's
+    (database) x (read, write) cells are probed.  -> (cells, divergences)"""
+    cells, divs = 0, []
+    for i, h in enumerate(hists):
+        sub = World(w.srv, f"{w.ns}g{i}", users=("u1",))
+        sub.db, sub.tok_rows, sub.tok_cat = w.db, w.tok_rows, w.tok_cat
+        sub.hid = w.hid
+        sub.mk = w.mk             # (the measurements the probes write get names that are fresh in the shared databases)
+        for si, e in enumerate(h):
+            sub.root(e["a"], e["args"])
+            n, dv = probe_may(sub, e["exp"], si, e["a"], e["args"])
+            cells += n
+            if dv:
+                divs.append({"idx": i, "step": si, "a": e["a"], "args": e["args"], "detail": dv, "hist": h})
+        if sub.pwv["u1"] > 0:
+            w.srv.addl(f"DROP USER {sub.uname['u1']}")
+    return cells, divs
+
+
 CREAD_FAMILIES = ["/api/v1/query_range#old", "/prometheus/{metric_store}/api/v1/query_range#old", "/api/v1/query#old",
                   "/prometheus/{metric_store}/api/v1/query#old"]
 
@@ -1930,7 +1974,7 @@ def play_cache(runner, hists, seed, first=0):
     w.cache_ns = None
 
 
-def run_ports(entries, caches, live, tier, seed, finding_of, out, unmapped=()):
+def run_ports(entries, caches, revokes, live, tier, seed, finding_of, out, unmapped=()):
     """matrix of the side-port classes and of the cacheable read (every request with a cache key of its own), the
     discovery of the routes the running side ports dispatch, the listening ports of the process, then the cache family"""
     srv = None
@@ -1966,10 +2010,13 @@ def run_ports(entries, caches, live, tier, seed, finding_of, out, unmapped=()):
         nmat = len(runner.records)
         t1 = time.time()
         play_cache(runner, caches, seed)
+        t2 = time.time()
+        rcells, rdivs = play_revoke(w, revokes, seed)
         final = runner.facts()
         drift = {f for f in (final ^ base) - runner.ignore if not f.startswith("meta:snapshot:") and not re.search(r"c19(w|pw|ps|into|cm)_?\d|:c19l\d", f)}
         out["ports"] = {"runner": runner, "plan": len(plan), "classes": {k: len(v) for k, v in by_class.items()}, "wall_s": round(t1 - t0, 1),
-                        "cache_wall_s": round(time.time() - t1, 1), "matrix_requests": nmat, "cache_requests": len(runner.records) - nmat,
+                        "cache_wall_s": round(t2 - t1, 1), "revoke": {"behaviours": len(revokes), "cells": rcells, "divs": rdivs,
+                                                                       "wall_s": round(time.time() - t2, 1)}, "matrix_requests": nmat, "cache_requests": len(runner.records) - nmat,
                         "cache_behaviours": len(caches), "caches": caches, "drift": sorted(drift), "stray": [], "unmapped": um, "info": info,
                         "found": {r: sorted(found[r]) for r in found}, "anonymous": anon}
     except BaseException as ex:   # noqa
@@ -2314,10 +2361,12 @@ def run(tier, seed):
         fq = ex.submit(export_sequences, 40 if quick else 260, 16 if quick else 22, seed)
         fc = ex.submit(export_scripts, seed, 6 if quick else 99)
         fr = ex.submit(export_race, seed, 12 if quick else 60)
-        fk = ex.submit(export_cache, seed, 420 if quick else None)
+        fk = ex.submit(export_cache, seed, 420 if quick else 2400)      # (thorough: every behaviour the deviation decides differently + a seeded part of the rest)
         entries, multi, mstats = fm.result()
         caches, kstats = fk.result()
         mstats["cache"] = kstats
+        revokes, vstats = export_revoke(seed, 24 if quick else None)
+        mstats["revoke"] = vstats
         hists, qstats = fq.result()
         scripts, cstats = fc.result()
         qstats["scripted"] = cstats
@@ -2327,7 +2376,7 @@ def run(tier, seed):
         fa = ex.submit(mode_a, tier)
         fs = ex.submit(check_seeds)
         jobs = [ex.submit(run_matrix, sv, entries, multi, live, tier, seed, finding_of, out, unmapped) for sv in ("basic", "logkeeper")]
-        jobs.append(ex.submit(run_ports, entries, caches, live, tier, seed, finding_of, out, unmapped))
+        jobs.append(ex.submit(run_ports, entries, caches, revokes, live, tier, seed, finding_of, out, unmapped))
         hists = scripts + (hists[:18] if quick else hists[:142])
         jobs.append(ex.submit(run_sequences, hists, seed, finding_of, live, out, 4 if quick else 6))
         jobs.append(ex.submit(run_race, races, seed, finding_of, out, 2 if quick else 4))
@@ -2382,6 +2431,12 @@ def report(out, live, unmapped, stale, exh, seeds, mstats, qstats, finding_of, t
             infra.append(f"the running {role} port dispatches routes the syntax-tree walk did not find: {sorted(got - table)}")
         if table - got:
             infra.append(f"routes of the {role} port's syntax tree that the running port does not dispatch: {sorted(table - got)}")
+    for d in po["revoke"]["divs"]:
+        nviol += 1
+        path = vlib.save_replay(PROP, {"kind": "revoke", "seed": seed, "hist": d["hist"], "result": {k: v for k, v in d.items() if k != "hist"}})
+        print(f"VIOLATION property={PROP} replay={path}")
+        vlib.log(f"   GRANT / REVOKE table, behaviour {[[e['a'], e['args'].get('p', '')] for e in d['hist']]} step {d['step']} {d['a']} {d['args']}: " +
+                 "; ".join(d["detail"])[:600])
     if po["info"]["unmapped_http_ports"]:
         path = vlib.save_replay(PROP, {"kind": "stray", "seed": seed, "server": "ports", "paths": po["info"]["unmapped_http_ports"]})
         print(f"VIOLATION property={PROP} replay={path}")
@@ -2484,7 +2539,8 @@ def report(out, live, unmapped, stale, exh, seeds, mstats, qstats, finding_of, t
         "states": exh["distinct"], "transitions": exh["generated"],
         "traces_validated_against_impl": len(seqres) + len({json.dumps(r["req"], sort_keys=True) for sv in ("basic", "logkeeper", "ports") for r in out[sv]["runner"].records}) + out["ports"]["cache_behaviours"],
         "samples": [[{"a": e["a"], "args": e["args"]} for e in seqres[0]["hist"]]] if seqres else [],
-        "evaluations": len(allrec) + sum(x["may_cells"] for x in seqres) + race["requests"],
+        "evaluations": len(allrec) + sum(x["may_cells"] for x in seqres) + race["requests"] + po["revoke"]["cells"],
+        "grant_revoke_table": {k: v for k, v in po["revoke"].items() if k != "divs"},
         "distinct_nontrivial": distinct,
         "exhaustive": False,
         "rule": "matrix: every request of Auth.tla (route class | statement kind x credentials x transport x database x ON clause) from the fixed "
@@ -2574,6 +2630,18 @@ def replay(path, seed):
             return 1
         print("replay passes" + (" (known finding re-observed)" if out["race"]["alias"] else ""))
         return 0
+    if kind == "revoke":
+        srv = AuthServer(seed, name="c19rp")
+        try:
+            w = World(srv, f"s{seed}p")
+            w.setup_matrix(2)
+            cells, divs = play_revoke(w, [obj["hist"]], seed)
+        finally:
+            srv.stop()
+        for d in divs:
+            vlib.log(f"   step {d['step']} {d['a']} {d['args']}: " + "; ".join(d["detail"])[:600])
+        print(f"VIOLATION property={PROP} replay={path}" if divs else "replay passes")
+        return 1 if divs else 0
     if kind == "cache":
         srv = AuthServer(seed, name="c19rp")
         try:
